@@ -18,12 +18,19 @@ import time
 pid, sdir, checks = sys.argv[1], sys.argv[2], sys.argv[3:]
 WT = "/tmp/seed-confirm-%s" % pid
 ROOT = os.path.dirname(os.path.dirname(os.path.abspath(__file__)))
+# the checks are run from a snapshot of the COMMITTED /verif (so that edits in
+# progress cannot disturb a confirmation); it shares the content-addressed cache
+SNAP = "/tmp/verif-snap-%s" % pid
 
 
 def sh(cmd, **kw):
     return subprocess.run(cmd, shell=isinstance(cmd, str), stdout=subprocess.PIPE, stderr=subprocess.STDOUT, text=True, **kw)
 
 
+sh("git -C %s worktree remove --force %s" % (ROOT, SNAP))
+sh("git -C %s worktree add --detach %s HEAD" % (ROOT, SNAP))
+os.makedirs(os.path.join(ROOT, ".cache"), exist_ok=True)
+os.symlink(os.path.join(ROOT, ".cache"), os.path.join(SNAP, ".cache"))
 head = sh("git -C /repo rev-parse HEAD").stdout.strip()
 if not os.path.exists(WT):
     sh("git -C /repo worktree add --detach %s %s" % (WT, head))
@@ -56,7 +63,7 @@ for d in diffs:
     for c in checks:
         t0 = time.time()
         env = dict(os.environ, VERIF_REPO=WT)
-        p = subprocess.run(["timeout", "2400", os.path.join(ROOT, "verif"), "check", c, "--tier", "quick"], env=env,
+        p = subprocess.run(["timeout", "2400", os.path.join(SNAP, "verif"), "check", c, "--tier", "quick"], env=env,
                            stdout=subprocess.PIPE, stderr=subprocess.STDOUT, text=True)
         sigs = [l.strip() for l in p.stdout.splitlines() if l.strip().startswith("signature:")]
         rec["checks"][c] = {"exit": p.returncode, "caught": p.returncode == 1, "signatures": sorted(set(sigs))[:6], "wall_s": round(time.time() - t0)}
@@ -91,5 +98,6 @@ if os.environ.get("SEED_SKIP_SUITE") != "1":
             m["existing_suite_with_batch_applied"] = suite
             json.dump(m, open(out, "w"), indent=1)
 sh("git -C %s checkout -- ." % WT)
+sh("git -C %s worktree remove --force %s" % (ROOT, SNAP))
 if os.environ.get("SEED_KEEP_WT") != "1":
     sh("git -C /repo worktree remove --force %s" % WT)
